@@ -110,8 +110,12 @@ def check_counts(prop, ctx):
     counts = {}
     for i in ctx.instances:
         counts[i["rule"]] = counts.get(i["rule"], 0) + 1
+    failing = {i["rule"] for i in ctx.instances if not i["ok"]}
     for rule, minimum in exp.items():
-        if counts.get(rule, 0) < minimum:
+        # a rule with a failing instance is not vacuous: dependent instances (the links of a propagation
+        # chain after the broken one, the cells after a rejected state) are legitimately not generated,
+        # and the failure itself is reported
+        if counts.get(rule, 0) < minimum and rule not in failing:
             raise AnalysisBroken("%s rule %s matched %d instances, frozen minimum is %d "
                                  "(a rule that matches nothing proves nothing)" %
                                  (prop, rule, counts.get(rule, 0), minimum))
